@@ -30,7 +30,10 @@ def installed(shims: List[Shim]):
     saved: List[Tuple[Any, str, Any]] = []
     try:
         for s in shims:
-            mod = importlib.import_module(s.module) if isinstance(s.module, str) else s.module
+            try:
+                mod = importlib.import_module(s.module) if isinstance(s.module, str) else s.module
+            except ImportError as e:
+                raise core.HarnessError(f"shim target {s.module!r} cannot be imported: {e}")
             old = mod.__dict__.get(s.name, _MISSING)
             saved.append((mod, s.name, old))
             setattr(mod, s.name, s.replacement)
